@@ -10,13 +10,13 @@ TB = ("stdlib ast of /venv/bin/python parses the code the same way the interpret
 
 CHECKS = {
     "C15": dict(
-        technique="static effect analysis (ast): module/class/self/argument write sets closed over the call graph, decorator and default-argument audit, ambient-input census; bulk path rule borrowed from C12",
+        technique="static effect analysis (ast): module/class/self/argument write sets closed over the call graph, decorator and default-argument audit, ambient-input census; memo-table transparency (key injectivity, immutable cached value, lookup idiom only); bulk path rule borrowed from C12",
         category="other",
         text="Decides for every function of the package, on all paths at once, that no shared mutable state and no ambient input exists "
              "(rules P1-P7): history-, position- and thread-independence then hold for all inputs. A memo keyed on part of the arguments, "
              "a growing default, module scratch state or a write to self in make_readable is one store in the syntax tree, whatever input would expose it.",
         ref="DESIGN 3/C15",
-        note=TB + "; memoisation of any kind is treated as state (the library documents itself as stateless)"),
+        note=TB + "; a memo table is accepted only when its key is shown injective in all the cached value is computed from, the value is annotated immutable and the table is touched through the lookup idiom alone; any other store into module-level state is reported"),
     "C17": dict(
         technique="static effect analysis + control dependence (ast CFG, guard-literal dataflow, reaching definitions): I/O primitives reachable through the resolved call graph must be dominated by the show/save_report tests; polarity of the validity guard around the preview's hex rendering; raw-entry provenance of converter arguments in the report region; destructuring in the preview region dominated by a test of the unpacked name; CFG reachability of the raw returned value to the preview call avoiding hex-rendering / re-reading nodes",
         category="other",
@@ -73,7 +73,7 @@ CHECKS = {
         ref="DESIGN 3/C02",
         note=TB + "; contracts (sa/contracts.py) transcribe the property; calculate_contrast_ratio / calculate_delta_e_2000 and the colour-preserving format wrappers are uninterpreted (their correctness: C05/C11/C06); A1 no NaN; oklch_to_rgb_safe yields valid 8-bit triples (C10)"),
     "C04": dict(
-        technique="static deductive verification (same guard-fact engine): tolerance-guard dominance at every recording site, schedule-maximum constant evaluation, chain-of-bounded-steps invariant; CIEDE2000 closed-form rule borrowed from C11 (the yardstick of every tolerance)",
+        technique="static deductive verification (same guard-fact engine): tolerance-guard dominance at every recording site, schedule-maximum constant evaluation, chain-of-bounded-steps invariant; CIEDE2000 closed-form rule borrowed from C11 (the yardstick of every tolerance); memo-key injectivity over the distance routine's call closure",
         category="proof",
         text="The search routines return None or a valid colour within the tolerance they were given; the multi-phase search stays within max(schedule) (default literal maximum 5.0); mode 0 is within 5.0; "
              "modes 1/2 only return colours reached from the original by chaining such steps on the caller's background. Obligations at every return, all paths, all arguments (including schedules the library never uses).",
